@@ -216,3 +216,595 @@ Proof.
     { subst move. apply Z.min_glb; [apply f64_to_u64_range | lia]. }
     split; [reflexivity|]. split; [lia|]. split; [lia|]. right. exists cp0, (- move). repeat split; auto; lia.
 Qed.
+
+(* ---------- operations that do not touch allocations ---------- *)
+
+Lemma ss_transfer_allocs : forall s f t v s', ss_transfer s f t v = Some s' -> st_allocs s' = st_allocs s.
+Proof.
+  unfold ss_transfer; intros s f t v s' H. destruct (v =? 0); [inversion H; reflexivity|].
+  destruct (ss_bal s f <? v); [discriminate|]. inversion H; reflexivity.
+Qed.
+
+Lemma ss_lock_from_allocs : forall c s cl v s', ss_lock_from c s cl v = Some s' -> st_allocs s' = st_allocs s.
+Proof.
+  unfold ss_lock_from; intros c s cl v s' H. destruct (ss_bal s cl <? v); [discriminate|]. eapply ss_transfer_allocs; eauto.
+Qed.
+
+Lemma st_c12_allocs_eq : forall s s', st_allocs s' = st_allocs s -> st_c12 s -> st_c12 s'.
+Proof. unfold st_c12; intros s s' E H; rewrite E; exact H. Qed.
+
+(* ---------- write pool lock ---------- *)
+
+Lemma ss_wp_lock_c12 : forall c s sender alloc value s',
+  st_c12 s -> 0 <= value -> ss_wp_lock c s sender alloc value = Some s' -> st_c12 s'.
+Proof.
+  unfold ss_wp_lock; intros c s sender alloc value s' Hs Hv H.
+  guard_inv H. guard_inv H. bind_inv H. rename x into s1. bind_inv H. rename x into a. bind_inv H. guard_inv H.
+  inversion H; subst. pose proof (ss_lock_from_allocs _ _ _ _ _ E) as Ea.
+  assert (Hs1 : st_c12 s1) by (eapply st_c12_allocs_eq; eauto).
+  apply st_c12_set; auto. pose proof (Forall_find_alloc _ _ _ _ Hs1 E0) as Ha.
+  apply ss_add_coin_some in E1. destruct E1 as [-> _].
+  destruct Ha as [H1 [H2 [H3 H4]]]. unfold al_c12. rewrite al_with_pools_money. repeat split; auto. cbn in *. lia.
+Qed.
+
+(* ---------- commit connection ---------- *)
+
+Lemma ss_commit_c12 : forall c s sender alloc client root prev size ts sig_ok s',
+  st_c12 s -> ss_commit c s sender alloc client root prev size ts sig_ok = Some s' -> st_c12 s'.
+Proof.
+  unfold ss_commit; intros c s sender alloc client root prev size ts sig_ok s' Hs H.
+  guard_inv H. bind_inv H. rename x into a. guard_inv H. guard_inv H. bind_inv H. rename x into d. guard_inv H.
+  match type of H with (if ?b then _ else _) = _ => destruct b end; [inversion H; subst; exact Hs|].
+  bind_inv H. rename x into change. bind_inv H. rename x into b. guard_inv H.
+  set (d0 := if ba_used d =? 0 then _ else d) in *.
+  guard_inv H. guard_inv H. bind_inv H. destruct x as [[[[w mtc] mb] cp] d2]. guard_inv H. inversion H; subst. clear H.
+  pose proof (Forall_find_alloc _ _ _ _ Hs E) as Ha.
+  pose proof (al_c12_ba_range _ _ _ Ha E0) as Hr. pose proof (al_c12_wpool _ Ha) as Hw.
+  assert (Hd0 : ba_cpiv d0 = ba_cpiv d /\ ba_blobber d0 = ba_blobber d) by (subst d0; destruct (ba_used d =? 0); split; reflexivity).
+  destruct Hd0 as [Hc0 Hb0].
+  apply ss_commit_move_some in E3; [|cbn; lia|exact Hw]. cbn [ba_blobber ba_cpiv ba_with_data] in E3.
+  destruct E3 as [Hb2 [Hn2 [Hw2 Hcase]]].
+  assert (Hf : ss_find_ba (ba_blobber d2) (al_bas a) = Some d).
+  { rewrite Hb2, Hb0. eapply ss_find_ba_self; eauto. }
+  unfold st_c12. cbn [st_allocs st_with_allocs st_with_blobbers]. apply Forall_set_alloc; [exact Hs|].
+  unfold al_c12. rewrite al_with_stats_money, al_with_pools_money.
+  destruct Hcase as [[Hc Hcp]|[cp0 [delta [Hcp0 [Hcp [Hc Hb]]]]]].
+  - eapply c12_same; eauto. lia.
+  - subst cp. eapply c12_delta; eauto. lia.
+Qed.
+
+(* ---------- new allocation ---------- *)
+
+Lemma ss_assign_zero : forall c chosen all bsz now bas all', ss_assign c chosen all bsz now = Some (bas, all') ->
+  Forall (fun d => ba_cpiv d = 0) bas.
+Proof.
+  induction chosen as [|b tl IH]; cbn [ss_assign]; intros all bsz now bas all' H.
+  - inversion H; constructor.
+  - bind_inv H. bind_inv H. destruct x0 as [ds al2]. inversion H; subst. constructor; [reflexivity | eauto].
+Qed.
+
+Lemma sum_zero : forall l, Forall (fun d => ba_cpiv d = 0) l -> map ba_cpiv l = map (fun _ => 0) l.
+Proof. induction 1; cbn; congruence. Qed.
+
+Lemma c12_fresh : forall bas w, Forall (fun d => ba_cpiv d = 0) bas -> 0 <= w -> c12_money (Some 0, map ba_cpiv bas, w).
+Proof.
+  intros bas w Hz Hw. rewrite (sum_zero _ Hz).
+  assert (S : ss_sum (map (fun _ : ss_balloc => 0) bas) = 0) by (clear; induction bas; cbn; [reflexivity | exact IHbas]).
+  unfold c12_money; cbn [fst snd]. rewrite S. split; [reflexivity|]. split; [|split; [lia | exact Hw]].
+  clear. induction bas; cbn; constructor; auto; lia.
+Qed.
+
+Lemma ss_new_alloc_c12 : forall c s now id owner payer value tv data parity size bl rr wr tpe s',
+  st_c12 s -> 0 <= value -> ss_new_alloc c s now id owner payer value tv data parity size bl rr wr tpe = Some s' -> st_c12 s'.
+Proof.
+  unfold ss_new_alloc; intros c s now id owner payer value tv data parity size bl rr wr tpe s' Hs Hv H.
+  guard_inv H. bind_inv H. guard_inv H. bind_inv H. destruct x0 as [bas all]. bind_inv H. rename x0 into s1.
+  bind_inv H. guard_inv H. guard_inv H. inversion H; subst. clear H.
+  assert (Ea : st_allocs s1 = st_allocs s).
+  { destruct (value =? 0); [inversion E1; reflexivity|]. guard_inv E1. eapply ss_lock_from_allocs; eauto. }
+  unfold st_c12. cbn [st_allocs st_with_allocs st_with_blobbers]. rewrite Ea. apply Forall_app. split; [exact Hs|].
+  constructor; [|constructor]. unfold al_c12, al_money, al_cpivs. cbn [al_cp al_bas al_wpool].
+  apply c12_fresh; [eapply ss_assign_zero; eauto | exact Hv].
+Qed.
+
+(* ---------- challenges ---------- *)
+
+Lemma al_c12_stats_bas : forall a d d' u t o sc f ocs ch,
+  al_c12 a -> ss_find_ba (ba_blobber d') (al_bas a) = Some d -> ba_cpiv d' = ba_cpiv d ->
+  al_c12 (al_with_stats (al_with_bas a (ss_set_ba d' (al_bas a))) u t o sc f ocs ch).
+Proof.
+  intros. unfold al_c12. rewrite al_with_stats_money. unfold al_with_bas. rewrite al_with_pools_money.
+  eapply c12_same; eauto. apply al_c12_wpool; auto.
+Qed.
+
+Lemma ss_gen_chal_c12 : forall c s now round alloc blobber ch s',
+  st_c12 s -> ss_gen_chal c s now round alloc blobber ch = Some s' -> st_c12 s'.
+Proof.
+  unfold ss_gen_chal; intros c s now round alloc blobber ch s' Hs H.
+  bind_inv H. rename x into a. bind_inv H.
+  remember (ss_drop_ocs _ (al_ocs a) a) as r eqn:Er. destruct r as [[a1 keep] gone]. symmetry in Er.
+  guard_inv H. bind_inv H. clear x E0. rename x0 into d. inversion H; subst. clear H.
+  pose proof (Forall_find_alloc _ _ _ _ Hs E) as Ha.
+  assert (Ha1 : al_c12 a1) by (eapply al_c12_money_eq; [eapply ss_drop_ocs_money; eauto | exact Ha]).
+  unfold st_c12. cbn [st_allocs st_with_allocs st_with_chals]. apply Forall_set_alloc; [exact Hs|].
+  apply (al_c12_stats_bas a1 d); auto. cbn. eapply ss_find_ba_self; eauto.
+Qed.
+
+Lemma ss_penalty_c12 : forall c s a blobber ls lf vals s' a',
+  al_c12 a -> vals <> [] -> ss_penalty c s a blobber ls lf vals = Some (s', a') ->
+  al_c12 a' /\ st_allocs s' = st_allocs s.
+Proof.
+  unfold ss_penalty; intros c s a blobber ls lf vals s' a' Ha Hv H.
+  destruct (lf <=? ls); [inversion H; subst; auto|].
+  bind_inv H. rename x into d. bind_inv H. rename x into cp. bind_inv H. bind_inv H. bind_inv H. destruct x1 as [d1 move0].
+  bind_inv H. rename x1 into vr. bind_inv H. rename x1 into move. bind_inv H. destruct x1 as [vs cp1].
+  bind_inv H. bind_inv H. destruct x2 as [w cp2]. bind_inv H. bind_inv H. bind_inv H. bind_inv H. destruct x5 as [s2 pen].
+  inversion H; subst. clear H.
+  apply ss_challenge_some in E3. destruct E3 as [-> [Hm0 Hm1]].
+  apply f64_mult_coin_range in E4. apply ss_minus_coin_some in E5. destruct E5 as [-> Hle].
+  apply ss_to_validators_some in E6. apply ss_move_from_cp_some in E8. destruct E8 as [-> [-> Hle2]].
+  assert (Hcp1 : cp1 = cp - vr).
+  { destruct E6 as [[-> _]|[-> [Hn|Hz]]]; [reflexivity | contradiction | lia]. }
+  split.
+  - unfold al_c12. rewrite al_with_pools_money.
+    pose proof (al_c12_wpool _ Ha).
+    replace (cp1 - (move0 - vr)) with (cp + - move0) by lia.
+    eapply (c12_delta a d); eauto; cbn; try lia.
+    eapply ss_find_ba_self; eauto.
+  - destruct (f64_ltb f64_zero (cf_slash c) && (0 <? move0 - vr) && (0 <? x4)).
+    + bind_inv E12. bind_inv E12. destruct x6 as [b' dp]. bind_inv E12. inversion E12; subst. reflexivity.
+    + inversion E12; subst. reflexivity.
+Qed.
+
+Lemma ss_reward_c12 : forall c s a blobber lf vals s' a',
+  al_c12 a -> vals <> [] -> ss_reward c s a blobber lf vals = Some (s', a') ->
+  al_c12 a' /\ st_allocs s' = st_allocs s.
+Proof.
+  unfold ss_reward; intros c s a blobber lf vals s' a' Ha Hv H.
+  bind_inv H. rename x into d. guard_inv H. bind_inv H. rename x into cp. bind_inv H. bind_inv H. bind_inv H. destruct x1 as [d1 move].
+  bind_inv H. rename x1 into vr. bind_inv H. rename x1 into br. bind_inv H. rename x1 into b. bind_inv H. destruct x1 as [b' cp1].
+  bind_inv H. bind_inv H. destruct x2 as [vs cp2]. bind_inv H. inversion H; subst. clear H.
+  apply ss_challenge_some in E3. destruct E3 as [-> [Hm0 Hm1]].
+  apply f64_mult_coin_range in E4. apply ss_minus_coin_some in E5. destruct E5 as [-> Hle].
+  apply ss_to_validators_some in E9.
+  assert (Hcp1 : cp1 = cp - (move - vr)).
+  { destruct (move - vr =? 0) eqn:Ez; [apply Z.eqb_eq in Ez; inversion E7; lia|].
+    destruct (cp <? move - vr); [discriminate|]. bind_inv E7. inversion E7; reflexivity. }
+  split; [|reflexivity].
+  assert (Hcp2 : cp2 = cp + - move).
+  { destruct E9 as [[-> _]|[-> [Hn|Hz]]]; [lia | contradiction | lia]. }
+  unfold al_c12. rewrite al_with_pools_money. rewrite Hcp2.
+  eapply (c12_delta a d); eauto; cbn; try lia.
+  - eapply ss_find_ba_self; eauto.
+  - apply al_c12_wpool; auto.
+Qed.
+
+Lemma ss_chal_resp_c12 : forall c s now round sender ch tok pass vals s',
+  st_c12 s -> (pass = true -> vals <> []) -> ss_chal_resp c s now round sender ch tok pass vals = Some s' -> st_c12 s'.
+Proof.
+  unfold ss_chal_resp; intros c s now round sender ch tok pass vals s' Hs Hv H.
+  bind_inv H. rename x into cn. guard_inv H. guard_inv H. guard_inv H. bind_inv H. rename x into a.
+  guard_inv H. guard_inv H. bind_inv H. rename x into d. guard_inv H. guard_inv H.
+  pose proof (Forall_find_alloc _ _ _ _ Hs E0) as Ha.
+  destruct pass; cbn [negb] in H.
+  - remember (ss_drop_ocs _ (al_ocs a) a) as r eqn:Er. destruct r as [[a1 keep] gone]. symmetry in Er.
+    bind_inv H. rename x into d1. guard_inv H. bind_inv H. destruct x as [s3 a3]. bind_inv H. destruct x as [s4 a4].
+    inversion H; subst. clear H.
+    assert (Ha1 : al_c12 a1) by (eapply al_c12_money_eq; [eapply ss_drop_ocs_money; eauto | exact Ha]).
+    match type of E3 with context [ss_penalty c s ?A] => assert (Ha2 : al_c12 A) end.
+    { apply (al_c12_stats_bas a1 d1); auto. cbn. eapply ss_find_ba_self; eauto. }
+    assert (H3 : al_c12 a3 /\ st_allocs s3 = st_allocs s).
+    { destruct (ba_ls d <? ba_lf d1); [eapply ss_penalty_c12; eauto | inversion E3; subst; auto]. }
+    destruct H3 as [Ha3 Es3].
+    destruct (ss_reward_c12 _ _ _ _ _ _ _ _ Ha3 (Hv eq_refl) E4) as [Ha4 Es4].
+    unfold st_c12. cbn [st_allocs st_with_allocs st_with_chals]. rewrite Es4, Es3. apply Forall_set_alloc; auto.
+  - inversion H; subst. clear H. unfold st_c12. cbn [st_allocs st_with_allocs]. apply Forall_set_alloc; [exact Hs|].
+    apply (al_c12_stats_bas a d); auto. cbn. eapply ss_find_ba_self; eauto.
+Qed.
+
+(* ---------- read marker ---------- *)
+
+Lemma ss_read_c12 : forall c s client blobber alloc ts ctr id_ok sig_ok s',
+  st_c12 s -> ss_read c s client blobber alloc ts ctr id_ok sig_ok = Some s' -> st_c12 s'.
+Proof.
+  unfold ss_read; intros c s client blobber alloc ts ctr id_ok sig_ok s' Hs H.
+  guard_inv H. guard_inv H. guard_inv H. guard_inv H. bind_inv H. rename x into a. guard_inv H.
+  bind_inv H. rename x into d. bind_inv H. guard_inv H. bind_inv H. bind_inv H. inversion H; subst. clear H.
+  pose proof (Forall_find_alloc _ _ _ _ Hs E) as Ha.
+  unfold st_c12. cbn [st_allocs st_with_allocs st_with_reads st_with_blobbers st_with_rpools]. apply Forall_set_alloc; [exact Hs|].
+  unfold al_c12, al_with_bas. rewrite al_with_pools_money.
+  apply (c12_same a d); [exact Ha | cbn; eapply ss_find_ba_self; eauto | reflexivity | reflexivity | apply al_c12_wpool; auto].
+Qed.
+
+(* ---------- closing removes the allocation (and with it its pool) ---------- *)
+
+Lemma ss_close_c12 : forall c s now round a s', st_c12 s -> ss_close c s now round a = Some s' -> st_c12 s'.
+Proof.
+  unfold ss_close; intros c s now round a s' Hs H.
+  remember (ss_settle_all c round a) as r eqn:Er. destruct r as [[a1 rates] gone].
+  bind_inv H. bind_inv H. destruct x0 as [[bas bls1] paid]. bind_inv H. bind_inv H. bind_inv H. guard_inv H. bind_inv H.
+  bind_inv H. destruct x4 as [bls2 w2]. bind_inv H. bind_inv H. inversion H; subst. clear H.
+  apply ss_transfer_allocs in E7. unfold st_c12. cbn [st_allocs st_with_allocs]. rewrite E7. cbn.
+  apply Forall_del_alloc. exact Hs.
+Qed.
+
+Lemma ss_finalize_c12 : forall c s now round sender alloc s', st_c12 s -> ss_finalize c s now round sender alloc = Some s' -> st_c12 s'.
+Proof.
+  unfold ss_finalize; intros c s now round sender alloc s' Hs H. bind_inv H. guard_inv H. guard_inv H. guard_inv H.
+  eapply ss_close_c12; eauto.
+Qed.
+
+Lemma ss_cancel_c12 : forall c s now round sender alloc s', st_c12 s -> ss_cancel c s now round sender alloc = Some s' -> st_c12 s'.
+Proof.
+  unfold ss_cancel; intros c s now round sender alloc s' Hs H. bind_inv H. guard_inv H. guard_inv H. guard_inv H.
+  eapply ss_close_c12; eauto.
+Qed.
+
+(* ---------- removing one blobber: pass payments split its value ---------- *)
+
+Lemma ss_fin_pay_some : forall c a cpbal b d rate now b' d' reward pen,
+  ss_fin_pay c a cpbal b d rate now = Some (b', d', reward, pen) -> 0 <= ba_cpiv d ->
+  ba_blobber d' = ba_blobber d /\ ba_cpiv d' + reward + pen = ba_cpiv d /\ 0 <= reward /\ 0 <= pen /\ 0 <= ba_cpiv d'.
+Proof.
+  unfold ss_fin_pay; intros c a cpbal b d rate now b' d' reward pen H Hn.
+  destruct (ba_lf d =? 0); [inversion H; subst; repeat split; auto; lia|].
+  bind_inv H. destruct x as [[b1 d1] pmove].
+  assert (H1 : ba_blobber d1 = ba_blobber d /\ ba_cpiv d1 + pmove = ba_cpiv d /\ 0 <= pmove /\ 0 <= ba_cpiv d1 /\ ba_lf d1 = ba_lf d).
+  { destruct (ba_lf d <=? ba_ls d); [inversion E; subst; repeat split; auto; lia|].
+    bind_inv E. bind_inv E. bind_inv E. destruct x1 as [dd move]. apply ss_challenge_some in E2. destruct E2 as [-> [Hm0 Hm1]].
+    bind_inv E. bind_inv E.
+    destruct (f64_ltb f64_zero (cf_slash c) && (0 <? move) && (0 <? x2)).
+    - bind_inv E. destruct x3 as [bb dp]. bind_inv E. inversion E; subst. cbn. repeat split; auto; lia.
+    - inversion E; subst. cbn. repeat split; auto; lia. }
+  destruct H1 as [Hb1 [Hc1 [Hp0 [Hn1 Hlf]]]].
+  destruct (now <=? ba_lf d1); [inversion H; subst; repeat split; auto; lia|].
+  bind_inv H. bind_inv H.
+  destruct ((0 <? al_used a) && (0 <? cpbal) && f64_ltb f64_zero rate).
+  - bind_inv H. bind_inv H. bind_inv H. inversion H; subst. apply f64_mult_coin_range in E2.
+    apply ss_minus_coin_some in E3. destruct E3 as [-> Hle]. cbn. repeat split; auto; lia.
+  - inversion H; subst. repeat split; auto; lia.
+Qed.
+
+(* replaceBlobber keeps the equality in both branches *)
+Lemma ss_replace_c12 : forall c s now round a removed nb s' a' fired,
+  al_c12 a -> ba_cpiv nb = 0 -> ss_replace c s now round a removed nb = Some (s', a', fired) -> fired = false ->
+  al_c12 a' /\ st_allocs s' = st_allocs s.
+Proof.
+  unfold ss_replace; intros c s now round a removed nb s' a' fired Ha Hnb H Hf.
+  bind_inv H. rename x into d. bind_inv H. rename x into b.
+  destruct (bl_killed b || bl_shut b).
+  - bind_as H cp Ecp. bind_as H [w cp'] Emv. bind_as H mb Emb. inversion H; subst. clear H.
+    apply ss_move_from_cp_some in Emv. destruct Emv as [-> [-> Hle]].
+    split; [|reflexivity]. unfold al_c12. rewrite al_with_pools_money.
+    pose proof (al_c12_ba_range _ _ _ Ha E) as Hr. pose proof (al_c12_cp _ Ha) as Hcp. rewrite Ecp in Hcp. inversion Hcp; subst cp.
+    destruct Ha as [H1 [H2 [H3' H4]]]. cbn in *.
+    pose proof (ss_sum_cpiv_replace_ba _ _ _ nb E) as S. unfold ss_sum_cpiv, al_cpivs in *.
+    unfold c12_money; cbn [fst snd]. rewrite S. repeat split; auto; try lia.
+    + f_equal. lia.
+    + apply cpivs_nonneg_Forall. apply Forall_replace_ba; [apply cpivs_nonneg_Forall; exact H2 | lia].
+  - bind_inv H. destruct x as [[a1 rate] gone]. bind_inv H. rename x into d1. bind_inv H. rename x into b0.
+    bind_inv H. rename x into cp. bind_inv H. destruct x as [[[b1 d2] reward] pen]. bind_inv H. rename x into cp1.
+    bind_inv H. bind_inv H. destruct x0 as [w cp2]. guard_inv H. bind_inv H. bind_inv H. destruct x1 as [b2 w2].
+    inversion H; subst. clear H.
+    assert (Ha1 : al_c12 a1) by (eapply al_c12_money_eq; [eapply ss_remove_rates_money; eauto | exact Ha]).
+    pose proof (al_c12_ba_range _ _ _ Ha1 E2) as Hr. pose proof (al_c12_cp _ Ha1) as Hcp. rewrite E4 in Hcp. inversion Hcp; subst cp.
+    pose proof (al_c12_sum_lt _ Ha1) as Hlt. pose proof (al_c12_wpool _ Ha1) as Hw.
+    apply ss_fin_pay_some in E5; [|lia]. destruct E5 as [Hb2 [Hsum [Hr0 [Hp0 Hn2]]]].
+    apply ss_minus_coin_some in E6. destruct E6 as [-> Hle].
+    assert (Hback : ss_wrap (ba_cpiv d2 + pen) = ba_cpiv d2 + pen) by (unfold ss_wrap; apply Z.mod_small; lia).
+    rewrite Hback in *. apply ss_move_from_cp_some in E8. destruct E8 as [-> [-> Hle2]].
+    split; [|reflexivity]. unfold al_c12. rewrite al_with_stats_money, al_with_pools_money.
+    (* write pool after the cancellation charge stays non-negative *)
+    assert (Hw2 : 0 <= w2).
+    { destruct x0 as [cc|].
+      - bind_inv E10. bind_inv E10. bind_inv E10. guard_inv E10. inversion E10; subst.
+        apply ss_minus_coin_some in E8. destruct E8 as [-> ?]. unfold ss_cancel_share in *. 
+        match goal with |- 0 <= ?w - ?sh => assert (0 <= sh) end.
+        { destruct (f64_float_to_coin _) eqn:Ec; [apply f64_float_to_coin_range in Ec; lia | lia]. }
+        lia.
+      - inversion E10; subst. lia. }
+    assert (Ef2 : ss_find_ba removed (ss_set_ba d2 (al_bas a1)) = Some d2).
+    { clear - E2 Hb2. apply ss_find_ba_in in E2 as Hin. destruct Hin as [_ Hb]. revert E2. generalize (al_bas a1).
+      induction l as [|x tl IH]; cbn; intros H; [discriminate|].
+      destruct (Z.eqb_spec (ba_blobber x) removed).
+      - replace (ba_blobber x =? ba_blobber d2) with true by (symmetry; apply Z.eqb_eq; congruence).
+        cbn. replace (ba_blobber d2 =? removed) with true by (symmetry; apply Z.eqb_eq; congruence). reflexivity.
+      - replace (ba_blobber x =? ba_blobber d2) with false by (symmetry; apply Z.eqb_neq; congruence).
+        cbn. destruct (Z.eqb_spec (ba_blobber x) removed); [contradiction|]. auto. }
+    assert (S1 : ss_sum_cpiv (ss_set_ba d2 (al_bas a1)) = ss_sum_cpiv (al_bas a1) - ba_cpiv d1 + ba_cpiv d2).
+    { apply ss_sum_cpiv_set_ba. rewrite Hb2. eapply ss_find_ba_self; eauto. }
+    pose proof (ss_sum_cpiv_replace_ba _ _ _ nb Ef2) as S2. unfold ss_sum_cpiv in S1, S2.
+    destruct Ha1 as [_ [Hnn _]]. cbn in Hnn. unfold ss_sum_cpiv in *.
+    unfold c12_money; cbn [fst snd]. rewrite S2, S1. repeat split; auto; try lia.
+    + f_equal. lia.
+    + apply cpivs_nonneg_Forall. apply Forall_replace_ba; [|lia]. apply Forall_set_ba; [apply cpivs_nonneg_Forall; exact Hnn | exact Hn2].
+Qed.
+
+Lemma ss_change_blobbers_c12 : forall c s now round a add remove s' a' fired,
+  al_c12 a -> ss_change_blobbers c s now round a add remove = Some (s', a', fired) -> fired = false ->
+  al_c12 a' /\ st_allocs s' = st_allocs s.
+Proof.
+  unfold ss_change_blobbers; intros c s now round a add remove s' a' fired Ha H Hf.
+  guard_inv H. bind_inv H. guard_inv H. bind_inv H. destruct x0 as [[s1 a1] f]. bind_inv H. inversion H; subst. clear H.
+  destruct remove as [r|].
+  - match type of E0 with ss_replace _ _ _ _ _ _ ?nb = _ =>
+      destruct (ss_replace_c12 c s now round a r nb s1 a' false Ha eq_refl E0 eq_refl) as [H1 H2] end.
+    split; [exact H1 | cbn; exact H2].
+  - inversion E0; subst. clear E0. split; [|reflexivity].
+    unfold al_c12, al_with_bas. rewrite al_with_pools_money. cbn [al_cp al_wpool al_with_head al_bas].
+    destruct Ha as [H1 [H2 [H3 H4]]]. cbn in *. unfold c12_money; cbn [fst snd].
+    rewrite map_app. cbn [map ba_cpiv ss_new_ba].
+    assert (S : ss_sum (map ba_cpiv (al_bas a) ++ [0]) = ss_sum (map ba_cpiv (al_bas a))).
+    { generalize (map ba_cpiv (al_bas a)). induction l; cbn; lia. }
+    rewrite S. repeat split; auto. apply Forall_app. split; [exact H2 | constructor; [lia | constructor]].
+Qed.
+
+(* extendAllocation step 1 changes sizes, terms and offers only *)
+Lemma ss_extend_terms_cpivs : forall c req diff size bas bls bas' bls',
+  ss_extend_terms c req diff size bas bls = Some (bas', bls') -> map ba_cpiv bas' = map ba_cpiv bas.
+Proof.
+  induction bas as [|d tl IH]; cbn [ss_extend_terms]; intros bls bas' bls' H.
+  - inversion H; reflexivity.
+  - bind_inv H. guard_inv H. bind_inv H. bind_inv H. bind_inv H. destruct x2 as [ds bl2]. inversion H; subst.
+    cbn. f_equal. eauto.
+Qed.
+
+(* adjustChallengePool without a wrap-around moves pool and values together *)
+Lemma ss_adjust_loop_ok : forall odrtu ndrtu bas owps w cp mtc mb bas' w' cp' mtc' mb',
+  ss_adjust_loop odrtu ndrtu bas owps w cp mtc mb = Some (bas', w', cp', mtc', mb', false) ->
+  Forall (fun d => 0 <= ba_cpiv d < 2 ^ 64) bas -> 0 <= w -> 0 <= cp < 2 ^ 64 ->
+  Forall (fun d => 0 <= ba_cpiv d) bas' /\ 0 <= w' /\ 0 <= cp' < 2 ^ 64 /\
+  ss_sum_cpiv bas' - ss_sum_cpiv bas = cp' - cp.
+Proof.
+  unfold ss_sum_cpiv.
+  induction bas as [|d tl IH]; cbn [ss_adjust_loop]; intros owps w cp mtc mb bas' w' cp' mtc' mb' H Hb Hw Hcp.
+  - inversion H; subst. cbn. repeat split; auto; lia.
+  - destruct owps as [|owp otl]; [discriminate|]. inversion Hb as [|? ? Hd Htl]; subst.
+    destruct (ba_used d =? 0).
+    { bind_inv H. destruct x as [[[[[ds w1] cp1] mtc1] mb1] f]. inversion H; subst.
+      destruct (IH _ _ _ _ _ _ _ _ _ _ E Htl Hw Hcp) as [A [B [C D]]]. cbn. repeat split; auto; try lia. constructor; [lia | exact A]. }
+    guard_inv H.
+    match type of H with (if ?v =? 0 then _ else _) = _ => set (V := v) in * end.
+    assert (HV : 0 <= V < 2 ^ 64) by (subst V; apply f64_to_u64_range).
+    destruct (V =? 0).
+    { bind_inv H. destruct x as [[[[[ds w1] cp1] mtc1] mb1] f]. inversion H; subst.
+      destruct (IH _ _ _ _ _ _ _ _ _ _ E Htl Hw Hcp) as [A [B [C D]]]. cbn. repeat split; auto; try lia. constructor; [lia | exact A]. }
+    destruct (f64_ltb _ f64_zero).
+    + bind_inv H. destruct x as [w1 cp1]. apply ss_move_from_cp_some in E. destruct E as [-> [-> Hle]].
+      bind_inv H. destruct x as [[[[[ds w2] cp2] mtc2] mb2] f]. inversion H; subst. clear H.
+      apply orb_false_iff in H6. destruct H6 as [-> Hnw]. apply Z.ltb_ge in Hnw.
+      assert (Hwr : ss_wrap (ba_cpiv d - V) = ba_cpiv d - V) by (unfold ss_wrap; apply Z.mod_small; lia).
+      destruct (IH _ _ _ _ _ _ _ _ _ _ E Htl) as [A [B [C D]]]; try lia.
+      cbn. rewrite Hwr. repeat split; auto; try lia. constructor; [cbn; lia | exact A].
+    + bind_inv H. destruct x as [w1 cp1]. apply ss_move_to_cp_some in E. destruct E as [-> [-> [Hlt Hle]]].
+      bind_inv H. destruct x as [[[[[ds w2] cp2] mtc2] mb2] f]. inversion H; subst. clear H.
+      apply orb_false_iff in H6. destruct H6 as [-> Hnw]. apply Z.leb_gt in Hnw.
+      assert (Hwr : ss_wrap (ba_cpiv d + V) = ba_cpiv d + V) by (unfold ss_wrap; apply Z.mod_small; lia).
+      destruct (IH _ _ _ _ _ _ _ _ _ _ E Htl) as [A [B [C D]]]; try lia.
+      cbn. rewrite Hwr. repeat split; auto; try lia. constructor; [cbn; lia | exact A].
+Qed.
+
+Lemma ss_extend_c12 : forall c s now a size s' a' fired,
+  al_c12 a -> ss_extend c s now a size = Some (s', a', fired) -> fired = false ->
+  al_c12 a' /\ st_allocs s' = st_allocs s.
+Proof.
+  unfold ss_extend; intros c s now a size s' a' fired Ha H Hf.
+  bind_inv H. bind_inv H. destruct x0 as [bas bls]. apply ss_extend_terms_cpivs in E0.
+  assert (Ha1 : al_c12 (al_with_bas (al_with_head a (al_owner a) (now + ss_tu_sec c) (al_size a + size) (al_parity a) (al_tpe a)) bas)).
+  { unfold al_c12, al_with_bas. rewrite al_with_pools_money. cbn [al_cp al_wpool al_with_head]. rewrite E0. exact Ha. }
+  cbn [al_used al_with_bas al_with_pools al_with_head] in H.
+  destruct (al_used a =? 0); [inversion H; subst; split; [exact Ha1 | reflexivity]|].
+  bind_inv H. bind_inv H. bind_inv H. rename x2 into cp. bind_inv H. destruct x2 as [[[[[bas' w] cp'] mtc] mb] f].
+  inversion H; subst. clear H. split; [|reflexivity].
+  cbn [al_cp al_wpool al_mtc al_mb al_with_bas al_with_pools al_with_head] in *.
+  pose proof (al_c12_cp _ Ha) as Hcp. rewrite E3 in Hcp. inversion Hcp; subst cp. clear Hcp.
+  pose proof (al_c12_sum_lt _ Ha) as Hlt. pose proof (al_c12_wpool _ Ha) as Hw.
+  assert (Hnn : Forall (fun d => 0 <= ba_cpiv d) (al_bas a)) by (destruct Ha as [_ [Hn _]]; apply cpivs_nonneg_Forall; exact Hn).
+  assert (Hsum : ss_sum_cpiv bas = ss_sum_cpiv (al_bas a)) by (unfold ss_sum_cpiv; rewrite E0; reflexivity).
+  assert (Hnn' : Forall (fun d => 0 <= ba_cpiv d) bas) by (apply cpivs_nonneg_Forall; rewrite E0; apply cpivs_nonneg_Forall; exact Hnn).
+  assert (Hb : Forall (fun d => 0 <= ba_cpiv d < 2 ^ 64) bas).
+  { rewrite Forall_forall in *. intros d Hin. split; [apply Hnn'; exact Hin|].
+    pose proof (ss_cpiv_le_sum bas d). rewrite Forall_forall in H. specialize (H Hnn' Hin). lia. }
+  apply ss_adjust_loop_ok in E4; auto; [|pose proof (ss_sum_cpiv_nonneg _ Hnn); lia].
+  destruct E4 as [A [B [C D]]].
+  unfold al_c12. rewrite al_with_pools_money. unfold c12_money; cbn [fst snd]. fold (ss_sum_cpiv bas').
+  repeat split; auto; try lia.
+  - f_equal. lia.
+  - apply cpivs_nonneg_Forall. exact A.
+Qed.
+
+Lemma ss_update_f_c12 : forall c s now round sender alloc value size ext tpe add rem own s',
+  st_c12 s -> 0 <= value -> ss_update_f c s now round sender alloc value size ext tpe add rem own = Some (s', false) -> st_c12 s'.
+Proof.
+  unfold ss_update_f; intros c s now round sender alloc value size ext tpe add rem own s' Hs Hv H.
+  bind_as H a Ea. guard_inv H. guard_inv H. guard_inv H. guard_inv H. guard_inv H. guard_inv H. guard_inv H.
+  bind_as H [s1 a1] E1. bind_as H bl Ebl. bind_as H [[s2 a2] fired] E2. bind_as H cp Ecp. bind_as H need En. guard_inv H.
+  inversion H; subst. clear H.
+  pose proof (Forall_find_alloc _ _ _ _ Hs Ea) as Ha.
+  assert (H1 : al_c12 a1 /\ st_allocs s1 = st_allocs s).
+  { destruct (ss_active (cf_demeter c) round && (0 <? value)).
+    - bind_as E1 sx Elk. bind_as E1 wx Ew. guard_inv E1. inversion E1; subst.
+      apply ss_lock_from_allocs in Elk. split; [|exact Elk].
+      apply ss_add_coin_some in Ew. destruct Ew as [-> _].
+      destruct Ha as [P1 [P2 [P3 P4]]].
+      unfold al_c12. rewrite al_with_pools_money. repeat split; auto. cbn in *. lia.
+    - inversion E1; subst. auto. }
+  destruct H1 as [Ha1 Es1].
+  assert (H2 : al_c12 a2 /\ st_allocs s2 = st_allocs s1).
+  { destruct (negb (sender =? al_owner a1)).
+    - eapply ss_extend_c12; eauto.
+    - bind_as E2 [[sa aa] f1] Ech. bind_as E2 [[sb ab] f2] Eex.
+      assert (Hcommon : f1 = false -> f2 = false -> al_c12 ab /\ st_allocs sb = st_allocs s1).
+      { intros -> ->.
+        assert (Ha' : al_c12 aa /\ st_allocs sa = st_allocs s1).
+        { destruct add as [x0|]; [eapply ss_change_blobbers_c12; eauto | inversion Ech; subst; auto]. }
+        destruct Ha' as [Haa Esa].
+        assert (Hb' : al_c12 ab /\ st_allocs sb = st_allocs sa).
+        { destruct (ext || (0 <? size)); [eapply ss_extend_c12; eauto | inversion Eex; subst; auto]. }
+        destruct Hb' as [Hab Esb]. split; [exact Hab | congruence]. }
+      destruct own as [[o wp]|].
+      + destruct (o =? _).
+        * inversion E2; subst. match goal with Hx : _ || _ = false |- _ => apply orb_false_iff in Hx; destruct Hx as [Hx1 Hx2] end.
+          destruct (Hcommon Hx1 Hx2) as [Hab Esb]. split; [|exact Esb]. unfold al_c12. rewrite al_with_head_money. exact Hab.
+        * guard_inv E2. inversion E2; subst. match goal with Hx : _ || _ = false |- _ => apply orb_false_iff in Hx; destruct Hx as [Hx1 Hx2] end.
+          destruct (Hcommon Hx1 Hx2) as [Hab Esb]. split; [|exact Esb]. unfold al_c12. repeat rewrite al_with_head_money. exact Hab.
+      + inversion E2; subst. match goal with Hx : _ || _ = false |- _ => apply orb_false_iff in Hx; destruct Hx as [Hx1 Hx2] end.
+        destruct (Hcommon Hx1 Hx2) as [Hab Esb]. split; [|exact Esb]. unfold al_c12. rewrite al_with_head_money. exact Hab. }
+  destruct H2 as [Ha2 Es2].
+  unfold st_c12. cbn [st_allocs st_with_allocs]. rewrite Es2, Es1. apply Forall_set_alloc; auto.
+Qed.
+
+(* ---------- every operation ---------- *)
+
+Definition ss_op_wf (o : ss_op) : Prop :=
+  match o with
+  | OpNewAlloc _ _ _ value _ _ _ _ _ _ _ _ _ => 0 <= value
+  | OpWPLock _ _ value => 0 <= value
+  | OpUpdate _ _ value _ _ _ _ _ _ => 0 <= value
+  | OpChalResp _ _ _ pass vals => pass = true -> vals <> []
+  | _ => True
+  end.
+
+Lemma ss_rp_lock_allocs : forall c s a b v s', ss_rp_lock c s a b v = Some s' -> st_allocs s' = st_allocs s.
+Proof.
+  unfold ss_rp_lock; intros c s a b v s' H. guard_inv H. bind_as H s1 E. bind_as H x Ex. inversion H; subst. cbn.
+  eapply ss_lock_from_allocs; eauto.
+Qed.
+
+Lemma ss_rp_unlock_allocs : forall c s a s', ss_rp_unlock c s a = Some s' -> st_allocs s' = st_allocs s.
+Proof.
+  unfold ss_rp_unlock; intros c s a s' H. bind_as H v E. bind_as H s1 E1. inversion H; subst. cbn. eapply ss_transfer_allocs; eauto.
+Qed.
+
+Lemma ss_kill_allocs : forall c s a b s', ss_kill c s a b = Some s' -> st_allocs s' = st_allocs s.
+Proof.
+  unfold ss_kill; intros c s a b s' H. bind_as H x E. guard_inv H. destruct (bl_killed x || bl_shut x).
+  - inversion H; reflexivity.
+  - bind_as H y Ey. inversion H; reflexivity.
+Qed.
+
+Lemma ss_shutdown_allocs : forall c s a b s', ss_shutdown c s a b = Some s' -> st_allocs s' = st_allocs s.
+Proof.
+  unfold ss_shutdown; intros c s a b s' H. bind_as H x E. destruct (bl_killed x || bl_shut x).
+  - inversion H; reflexivity.
+  - bind_as H y Ey. guard_inv H. inversion H; reflexivity.
+Qed.
+
+Lemma ss_upd_blobber_allocs : forall c s a b cap wp rp na s', ss_upd_blobber c s a b cap wp rp na = Some s' -> st_allocs s' = st_allocs s.
+Proof.
+  unfold ss_upd_blobber; intros c s a b cap wp rp na s' H. bind_as H x E. guard_inv H. bind_as H r Er. bind_as H w Ew. bind_as H cp Ec.
+  guard_inv H. inversion H; reflexivity.
+Qed.
+
+Lemma ss_add_assigner_allocs : forall c s a n i t s', ss_add_assigner c s a n i t = Some s' -> st_allocs s' = st_allocs s.
+Proof.
+  unfold ss_add_assigner; intros c s a n i t s' H. guard_inv H. bind_as H x E. guard_inv H. bind_as H y Ey. guard_inv H.
+  inversion H; reflexivity.
+Qed.
+
+Lemma ss_free_alloc_c12 : forall c s now id sender ass rec coin nonce sig bl s',
+  st_c12 s -> ss_free_alloc c s now id sender ass rec coin nonce sig bl = Some s' -> st_c12 s'.
+Proof.
+  unfold ss_free_alloc; intros c s now id sender ass rec coin nonce sig bl s' Hs H.
+  guard_inv H. bind_as H a Ea. bind_as H free Ef. guard_inv H. bind_as H nt Ent. guard_inv H. bind_as H rtok Er. bind_as H wtok Ew.
+  bind_as H s1 E1. bind_as H v Ev. inversion H; subst. clear H.
+  apply ss_minus_coin_some in Ew. destruct Ew as [-> Hle].
+  apply ss_new_alloc_c12 in E1; [|exact Hs|lia]. exact E1.
+Qed.
+
+Theorem ss_apply_c12 : forall c s now round o s',
+  st_c12 s -> ss_op_wf o -> ss_apply c s now round o = Some s' -> ss_fired c s now round o = false -> st_c12 s'.
+Proof.
+  intros c s now round o s' Hs Hwf H Hf. destruct o; cbn [ss_apply ss_op_wf ss_fired] in *.
+  - discriminate.
+  - eapply ss_new_alloc_c12; eauto.
+  - eapply ss_wp_lock_c12; eauto.
+  - eapply ss_commit_c12; eauto.
+  - destruct sel as [[[al bl] ch]|]; [eapply ss_gen_chal_c12; eauto | inversion H; subst; exact Hs].
+  - eapply ss_chal_resp_c12; eauto.
+  - unfold ss_update in H. destruct (ss_update_f c s now round sender alloc value size extend set_tpe add remove new_owner) as [[s2 f]|] eqn:E; [|discriminate].
+    cbn in H. inversion H; subst. eapply ss_update_f_c12; eauto.
+  - eapply ss_finalize_c12; eauto.
+  - eapply ss_cancel_c12; eauto.
+  - eapply st_c12_allocs_eq; [eapply ss_rp_lock_allocs; eauto | exact Hs].
+  - eapply st_c12_allocs_eq; [eapply ss_rp_unlock_allocs; eauto | exact Hs].
+  - eapply ss_read_c12; eauto.
+  - eapply st_c12_allocs_eq; [eapply ss_kill_allocs; eauto | exact Hs].
+  - eapply st_c12_allocs_eq; [eapply ss_shutdown_allocs; eauto | exact Hs].
+  - eapply st_c12_allocs_eq; [eapply ss_upd_blobber_allocs; eauto | exact Hs].
+  - eapply st_c12_allocs_eq; [eapply ss_add_assigner_allocs; eauto | exact Hs].
+  - eapply ss_free_alloc_c12; eauto.
+Qed.
+
+(* histories: the invariant holds after every prefix in which no defect fired *)
+Fixpoint ss_run_fired (c : ss_conf) (s : ss_state) (ts : list (Z * Z * ss_op)) : bool :=
+  match ts with
+  | [] => false
+  | (now, round, o) :: tl => ss_fired c s now round o || ss_run_fired c (fst (ss_step c s (now, round, o))) tl
+  end.
+
+Theorem ss_run_c12 : forall c ts s,
+  st_c12 s -> Forall (fun t => ss_op_wf (snd t)) ts -> ss_run_fired c s ts = false -> st_c12 (fst (ss_run c s ts)).
+Proof.
+  induction ts as [|[[now round] o] tl IH]; cbn [ss_run ss_run_fired]; intros s Hs Hwf Hf; [exact Hs|].
+  inversion Hwf; subst. apply orb_false_iff in Hf. destruct Hf as [Hf1 Hf2].
+  unfold ss_step in *. destruct (ss_apply c s now round o) as [s1|] eqn:E.
+  - cbn in Hf2. specialize (IH s1). destruct (ss_run c s1 tl) as [s2 oks] eqn:Er. cbn. 
+    assert (Hs1 : st_c12 s1) by (eapply ss_apply_c12; eauto). specialize (IH Hs1 H2 Hf2). exact IH.
+  - cbn in Hf2. specialize (IH s Hs H2 Hf2). destruct (ss_run c s tl) as [s2 oks]. exact IH.
+Qed.
+
+(* the empty state satisfies the invariant *)
+Lemma st_c12_no_allocs : forall s, st_allocs s = [] -> st_c12 s.
+Proof. unfold st_c12; intros s ->; constructor. Qed.
+
+(* a closed allocation is gone (its pool lives inside the allocation record of the model) *)
+Lemma ss_find_del_alloc : forall id l, NoDup (map al_id l) -> ss_find_alloc id (ss_del_alloc id l) = None.
+Proof.
+  induction l as [|x tl IH]; cbn; intros Hnd; [reflexivity|]. inversion Hnd; subst.
+  destruct (Z.eqb_spec (al_id x) id).
+  - subst. clear - H1. induction tl as [|y tl IH]; cbn; [reflexivity|]. destruct (Z.eqb_spec (al_id y) (al_id x)).
+    + exfalso. apply H1. cbn. left; auto.
+    + apply IH. intros Hin. apply H1. cbn. right; exact Hin.
+  - cbn. destruct (Z.eqb_spec (al_id x) id); [contradiction|]. auto.
+Qed.
+
+Theorem ss_close_removes : forall c s now round a s',
+  NoDup (map al_id (st_allocs s)) -> ss_close c s now round a = Some s' -> ss_find_alloc (al_id a) (st_allocs s') = None.
+Proof.
+  unfold ss_close; intros c s now round a s' Hnd H.
+  remember (ss_settle_all c round a) as r eqn:Er. destruct r as [[a1 rates] gone].
+  bind_as H cp E0. bind_as H [[bas bls1] paid] E1. bind_as H cp1 E2. bind_as H mb E3. bind_as H w E4. guard_inv H. bind_as H due E5.
+  bind_as H [bls2 w2] E6. bind_as H bls3 E7. bind_as H s2 E8. inversion H; subst. clear H.
+  apply ss_transfer_allocs in E8. cbn. rewrite E8. cbn. apply ss_find_del_alloc. exact Hnd.
+Qed.
+
+(* ---------- executable form of the invariant (used for witnesses and examples) ---------- *)
+
+Definition al_c12b (a : ss_alloc) : bool :=
+  match al_cp a with
+  | Some cp => (cp =? ss_sum_cpiv (al_bas a)) && forallb (fun d => 0 <=? ba_cpiv d) (al_bas a) &&
+               (ss_sum_cpiv (al_bas a) <? 2 ^ 64) && (0 <=? al_wpool a)
+  | None => false
+  end.
+Definition st_c12b (s : ss_state) : bool := forallb al_c12b (st_allocs s).
+
+Lemma al_c12b_spec : forall a, al_c12b a = true <-> al_c12 a.
+Proof.
+  intros a. unfold al_c12b, al_c12, c12_money, al_money, al_cpivs; cbn [fst snd]. fold (ss_sum_cpiv (al_bas a)).
+  destruct (al_cp a) as [cp|].
+  - rewrite !andb_true_iff, Z.eqb_eq, Z.ltb_lt, Z.leb_le, forallb_forall, Forall_map, Forall_forall.
+    split.
+    + intros [[[-> H2] H3] H4]. repeat split; auto. intros x Hx. apply Z.leb_le. auto.
+    + intros [H1 [H2 [H3 H4]]]. inversion H1; subst. repeat split; auto. intros x Hx. apply Z.leb_le. auto.
+  - split; [discriminate | intros [H _]; discriminate].
+Qed.
+
+Lemma st_c12b_spec : forall s, st_c12b s = true <-> st_c12 s.
+Proof.
+  intros s. unfold st_c12b, st_c12. rewrite forallb_forall, Forall_forall.
+  split; intros H x Hx; apply al_c12b_spec; auto.
+Qed.
+
+Lemma st_c12b_false : forall s, st_c12b s = false -> ~ st_c12 s.
+Proof. intros s H Hc. apply st_c12b_spec in Hc. congruence. Qed.
